@@ -149,6 +149,6 @@ func init() { register("C08", runC08) }
 
 func TestC08(t *testing.T) {
 	p := mixedParams{Modes: []int{0, 0, 1, 2}, Segs: []int64{200, 333, 1024, 8192}, Buckets: []string{"b", "bb", "c", ""},
-		MinB: 1, MaxB: 3, MaxSteps: 25, MaxOps: 4, ReopenPct: 15, Structs: true, ReadsInTx: true, Fill: true}
+		MinB: 1, MaxB: 3, MaxSteps: 25, MaxOps: 4, ReopenPct: 15, Structs: true, ReadsInTx: true, Fill: true, LongBigSeg: true}
 	runProperty(t, "C08", genMixedCase(p), runC08)
 }
